@@ -147,6 +147,7 @@ def write(prop, tier, seed, run, out, samples, known_hit, reported, source):
         "replicas_per_plan": run.k,
         "budget_exhausted": out["budget_exhausted"],
         "determinism_selfcheck": out.get("determinism_selfcheck"),
+        "comparable_log_aggregate": out.get("cmp_aggregate"),
         "cross_session_isolated_outcomes_compared": out.get("iso_pairs_compared", 0),
         "cross_seed_divergences": out.get("cross_seed_divergences", 0),
         "systematic_spaces": _spaces(prop, out.get("cover") or ()),
